@@ -21,7 +21,7 @@ Consume(name) == l < TraceLen /\ Ev.ev = name /\ l' = l + 1
 
 CaseOf(e) == [endpoint |-> e.endpoint, method |-> e.method, disk |-> e.disk, payload |-> e.payload,
               decodable |-> e.decodable, badb64 |-> SeqSet(e.badb64), fault |-> e.fault,
-              tree |-> TreeOf(Total(e.disk))]
+              tree |-> TreeOf(Total(e.disk)), n |-> 1, prev |-> << >>]
 
 TInit == Init /\ l = 1
 
